@@ -4,6 +4,7 @@
 //! Worker response = `<observables>` [TAB `#FAIL:<reason>`]. The observables are compared with
 //! the model's; the `#FAIL` suffix is the property's own oracle evaluated on the real code.
 
+mod changes;
 mod codec;
 mod cpr;
 mod deb;
@@ -41,6 +42,9 @@ impl Resp {
 
 fn dispatch(op: &str, args: &[&str]) -> Option<Resp> {
     if let Some(r) = pgp::handle(op, args) {
+        return Some(r);
+    }
+    if let Some(r) = changes::handle(op, args) {
         return Some(r);
     }
     if let Some(r) = deb::handle(op, args) {
@@ -103,7 +107,10 @@ fn generate(prop: &str, tier: &str, seed: u64, out: &mut util::Out) {
             relc14::generate_c14(tier, seed, out);
             lossybuild::generate_c14_build(tier, seed, out);
         }
-        "C15" => typed::generate_c15(tier, seed, out),
+        "C15" => {
+            typed::generate_c15(tier, seed, out);
+            changes::generate_c15(tier, seed, out);
+        }
         "C16" => derive::generate_c16(tier, seed, out),
         "C17" => cpr::generate_c17(tier, seed, out),
         "C18" => codec::generate_c18(tier, seed, out),
